@@ -336,8 +336,15 @@ def tokenize_deb822_file(sequence: Iterable[Union[str, bytes]]) -> Iterable[Deb8
 
             # If there are multiple whitespace-only lines, we combine them
             # into one token.
-            r = list(text_stream.takewhile(lambda x: _RE_WHITESPACE_LINE.match(x) is not None))
-            if r:
+            # Only lines that are (or will be) newline terminated can be merged; a
+            # final whitespace-only line without a newline becomes its own token.
+            if auto_correct_newlines:
+                r = list(text_stream.takewhile(
+                    lambda x: _RE_WHITESPACE_LINE.match(x) is not None and not x.endswith("\n")))
+                line += "".join(x + "\n" for x in r)
+            elif line.endswith("\n"):
+                r = list(text_stream.takewhile(
+                    lambda x: _RE_WHITESPACE_LINE.match(x) is not None and x.endswith("\n")))
                 line += "".join(r)
 
             # whitespace tokens are likely to have duplicate cases (like
